@@ -7,14 +7,403 @@ Open Scope Z_scope.
 
 Definition verdicts (c : dcfg) (evs : list dev) : list bool := map fst (drun c (dinit c) evs).
 
-Theorem S07_holds : forall c evs,
-    d_dynamic c = false -> 1 <= d_count c -> 1 <= d_gap c ->
+(* ====================================================================== *)
+(* fixed threshold: the threshold never changes                            *)
+(* ====================================================================== *)
+
+Lemma detect_thresh_fixed : forall c s f,
+    d_dynamic c = false -> s_thresh (fst (detect c s f)) = s_thresh s.
+Proof.
+  intros c s f Hd. unfold detect. rewrite Hd. cbn [andb].
+  destruct (negb (s_firstdiff s)); [reflexivity|].
+  destruct (affected_by_ffc f || s_affected s); reflexivity.
+Qed.
+
+Lemma drun_thresh_fixed : forall c evs s,
+    d_dynamic c = false -> Forall (fun o => snd o = s_thresh s) (drun c s evs).
+Proof.
+  intros c evs. induction evs as [|e t IH]; intros s Hd; cbn [drun].
+  - constructor.
+  - destruct e as [f|].
+    + pose proof (detect_thresh_fixed c s f Hd) as Ht.
+      destruct (detect c s f) as [s' m]. cbn [fst] in Ht.
+      constructor.
+      * cbn [snd]. exact Ht.
+      * rewrite <- Ht. apply IH. exact Hd.
+    + constructor.
+      * reflexivity.
+      * apply (IH (dreset s) Hd).
+Qed.
+
+(* ====================================================================== *)
+(* grids, interior coordinates, counting                                   *)
+(* ====================================================================== *)
+
+Lemma nth_map_seq : forall (B : Type) (F : nat -> B) n i d,
+    (i < n)%nat -> nth i (map F (seq 0 n)) d = F i.
+Proof.
+  intros B F n i d Hi.
+  rewrite (nth_indep (map F (seq 0 n)) d (F 0%nat)) by (rewrite map_length, seq_length; exact Hi).
+  rewrite (map_nth F). rewrite seq_nth by exact Hi. reflexivity.
+Qed.
+
+Lemma gget_gbuild : forall h w f y x,
+    (y < h)%nat -> (x < w)%nat -> gget (gbuild h w f) y x = f y x.
+Proof.
+  intros h w f y x Hy Hx. unfold gget, gbuild.
+  rewrite (nth_map_seq (list Z) (fun y0 => map (fun x0 => f y0 x0) (seq 0 w)) h y [] Hy).
+  apply (nth_map_seq Z (fun x0 => f y x0) w x 0 Hx).
+Qed.
+
+Lemma icoords_in : forall c y x,
+    In (y, x) (icoords c) -> interior c y x = true /\ (y < d_h c)%nat /\ (x < d_w c)%nat.
+Proof.
+  intros c y x H. unfold icoords in H. apply in_flat_map in H.
+  destruct H as (y0 & Hy0 & H). apply in_map_iff in H. destruct H as (x0 & Heq & Hx0).
+  inversion Heq; subst y0 x0. apply in_seq in Hy0. apply in_seq in Hx0.
+  unfold interior.
+  assert (E1 : Nat.leb (d_edge c) y = true) by (apply Nat.leb_le; lia).
+  assert (E2 : Nat.ltb y (d_h c - d_edge c) = true) by (apply Nat.ltb_lt; lia).
+  assert (E3 : Nat.leb (d_edge c) x = true) by (apply Nat.leb_le; lia).
+  assert (E4 : Nat.ltb x (d_w c - d_edge c) = true) by (apply Nat.ltb_lt; lia).
+  rewrite E1, E2, E3, E4. repeat split; lia.
+Qed.
+
+Lemma floor_to_max : forall t v, floor_to t v = Z.max v t.
+Proof. intros t v. unfold floor_to. destruct (Z.ltb_spec v t); lia. Qed.
+
+Lemma warmer_diff_max : forall a b, warmer_diff a b = Z.max 0 (a - b).
+Proof. intros a b. unfold warmer_diff. destruct (Z.ltb_spec (a - b) 0); lia. Qed.
+
+(* the detector's "changed by more than delta" test on a diff grid D is the spec's
+   "hot pixel" test on H, on every interior coordinate *)
+Definition drel (c : dcfg) (D H : grid) : Prop :=
+  forall yx, In yx (icoords c) ->
+    (d_delta c <? gget D (fst yx) (snd yx)) = (gget H (fst yx) (snd yx) =? 1).
+
+Lemma diff_hot : forall c t a b, drel c (diff_grid c t a b) (hot c t a b).
+Proof.
+  intros c t a b [y x] H. cbn [fst snd]. apply icoords_in in H. destruct H as (Hi & Hy & Hx).
+  unfold diff_grid, hot. rewrite !gget_gbuild by assumption. rewrite Hi. cbv zeta.
+  rewrite !floor_to_max, warmer_diff_max. unfold abs_diff.
+  destruct (d_warmer c);
+    match goal with |- context [if ?b then 1 else 0] => destruct b end; reflexivity.
+Qed.
+
+Lemma hot_self_zero : forall c t a yx,
+    0 <= d_delta c -> In yx (icoords c) -> gget (hot c t a a) (fst yx) (snd yx) = 0.
+Proof.
+  intros c t a [y x] Hd H. cbn [fst snd]. apply icoords_in in H. destruct H as (Hi & Hy & Hx).
+  unfold hot. rewrite gget_gbuild by assumption. rewrite Hi. cbv zeta.
+  destruct (d_warmer c);
+    match goal with |- context [if ?b then 1 else 0] => destruct b eqn:E end;
+    try reflexivity; apply Z.ltb_lt in E; lia.
+Qed.
+
+Lemma zero_grid_zero : forall c yx,
+    In yx (icoords c) -> gget (zero_grid c) (fst yx) (snd yx) = 0.
+Proof.
+  intros c [y x] H. cbn [fst snd]. apply icoords_in in H. destruct H as (Hi & Hy & Hx).
+  unfold zero_grid. rewrite gget_gbuild by assumption. reflexivity.
+Qed.
+
+Lemma fold_count_ext : forall (l : list (nat * nat)) (p q : nat * nat -> bool) n,
+    (forall yx, In yx l -> p yx = q yx) ->
+    fold_left (fun n yx => if p yx then n + 1 else n) l n =
+    fold_left (fun n yx => if q yx then n + 1 else n) l n.
+Proof.
+  induction l as [|a l IH]; intros p q n H; cbn [fold_left]; [reflexivity|].
+  rewrite (H a (or_introl eq_refl)). apply IH. intros yx Hin. apply H. right. exact Hin.
+Qed.
+
+Lemma fold_count_zero : forall (l : list (nat * nat)) (p : nat * nat -> bool) n,
+    (forall yx, In yx l -> p yx = false) ->
+    fold_left (fun n yx => if p yx then n + 1 else n) l n = n.
+Proof.
+  induction l as [|a l IH]; intros p n H; cbn [fold_left]; [reflexivity|].
+  rewrite (H a (or_introl eq_refl)). apply IH. intros yx Hin. apply H. right. exact Hin.
+Qed.
+
+Lemma icount_one : forall c D H,
+    drel c D H -> icount c (fun y x => d_delta c <? gget D y x) = count_both c H H.
+Proof.
+  intros c D H R. unfold icount, count_both.
+  apply (fold_count_ext (icoords c)
+           (fun yx => d_delta c <? gget D (fst yx) (snd yx))
+           (fun yx => (gget H (fst yx) (snd yx) =? 1) && (gget H (fst yx) (snd yx) =? 1))).
+  intros yx Hin. rewrite (R yx Hin). destruct (gget H (fst yx) (snd yx) =? 1); reflexivity.
+Qed.
+
+Lemma icount_two : forall c D1 D2 H1 H2,
+    drel c D1 H1 -> drel c D2 H2 ->
+    icount c (fun y x => (d_delta c <? gget D1 y x) && (d_delta c <? gget D2 y x)) =
+    count_both c H1 H2.
+Proof.
+  intros c D1 D2 H1 H2 R1 R2. unfold icount, count_both.
+  apply (fold_count_ext (icoords c)
+           (fun yx => (d_delta c <? gget D1 (fst yx) (snd yx)) && (d_delta c <? gget D2 (fst yx) (snd yx)))
+           (fun yx => (gget H1 (fst yx) (snd yx) =? 1) && (gget H2 (fst yx) (snd yx) =? 1))).
+  intros yx Hin. rewrite (R1 yx Hin), (R2 yx Hin). reflexivity.
+Qed.
+
+Lemma count_both_zero_l : forall c H1 H2,
+    (forall yx, In yx (icoords c) -> gget H1 (fst yx) (snd yx) = 0) -> count_both c H1 H2 = 0.
+Proof.
+  intros c H1 H2 Hz. unfold count_both.
+  apply (fold_count_zero (icoords c)
+           (fun yx => (gget H1 (fst yx) (snd yx) =? 1) && (gget H2 (fst yx) (snd yx) =? 1))).
+  intros yx Hin. rewrite (Hz yx Hin). reflexivity.
+Qed.
+
+Lemma icount_zero_l : forall c D1 H1 (q : nat -> nat -> bool),
+    drel c D1 H1 ->
+    (forall yx, In yx (icoords c) -> gget H1 (fst yx) (snd yx) = 0) ->
+    icount c (fun y x => (d_delta c <? gget D1 y x) && q y x) = 0.
+Proof.
+  intros c D1 H1 q R Hz. unfold icount.
+  apply (fold_count_zero (icoords c)
+           (fun yx => (d_delta c <? gget D1 (fst yx) (snd yx)) && q (fst yx) (snd yx))).
+  intros yx Hin. rewrite (R yx Hin), (Hz yx Hin). reflexivity.
+Qed.
+
+(* ====================================================================== *)
+(* the specification on an epoch extended by one frame                     *)
+(* ====================================================================== *)
+
+Lemma epoch_hot_snoc : forall c ep g,
+    epoch_hot c (ep ++ [g]) =
+    hot c (d_thresh0 c) g (nth (length ep - Z.to_nat (d_gap c)) (ep ++ [g]) []).
+Proof.
+  intros c ep g. unfold epoch_hot. cbv zeta. rewrite app_length. cbn [length].
+  rewrite Nat.add_1_r. cbv beta iota.
+  rewrite (@app_nth2 _ ep [g] [] (length ep)) by lia. rewrite Nat.sub_diag. reflexivity.
+Qed.
+
+Lemma epoch_hot_single_zero : forall c g yx,
+    0 <= d_delta c -> In yx (icoords c) -> gget (epoch_hot c [g]) (fst yx) (snd yx) = 0.
+Proof.
+  intros c g yx Hd Hin. change [g] with ([] ++ [g]). rewrite epoch_hot_snoc.
+  cbn [length Nat.sub app nth]. apply hot_self_zero; assumption.
+Qed.
+
+Lemma spec_verdict_snoc : forall c ep g,
+    spec_verdict c (ep ++ [g]) =
+    (d_count c <=?
+     (if d_one c then count_both c (epoch_hot c (ep ++ [g])) (epoch_hot c (ep ++ [g]))
+      else count_both c (epoch_hot c (ep ++ [g]))
+             (match ep with [] => zero_grid c | _ => epoch_hot c ep end))).
+Proof.
+  intros c ep g. unfold spec_verdict. cbv zeta.
+  assert (Hhp : match ep ++ [g] with
+                | [] | [_] => zero_grid c
+                | _ => epoch_hot c (removelast (ep ++ [g]))
+                end = match ep with [] => zero_grid c | _ => epoch_hot c ep end).
+  { rewrite removelast_last. destruct ep as [|a [|b ep]]; reflexivity. }
+  rewrite Hhp. reflexivity.
+Qed.
+
+(* ====================================================================== *)
+(* one Detect call without FFC                                             *)
+(* ====================================================================== *)
+
+Lemma detect_nonffc : forall c s f,
+    d_dynamic c = false -> affected_by_ffc f = false -> s_affected s = false ->
+    detect c s f =
+    (mkDS (move (put (s_floored s) f))
+          (move (put (s_diffs s)
+                     (diff_grid c (s_thresh s) (f_pix f)
+                                (f_pix (oldest_slot (blank_frame c) (put (s_floored s) f))))))
+          true false (s_thresh s) (s_bg s) (s_wts s) (s_bgframes s),
+     if s_firstdiff s
+     then has_motion c
+            (diff_grid c (s_thresh s) (f_pix f)
+                       (f_pix (oldest_slot (blank_frame c) (put (s_floored s) f))))
+            (current (zero_grid c)
+               (move (put (s_diffs s)
+                          (diff_grid c (s_thresh s) (f_pix f)
+                                     (f_pix (oldest_slot (blank_frame c) (put (s_floored s) f)))))))
+     else false).
+Proof.
+  intros c s f Hd Ha Hs. unfold detect. rewrite Hd, Ha, Hs. cbn [andb orb].
+  destruct (s_firstdiff s); reflexivity.
+Qed.
+
+(* the two-slot diff ring: after put-then-move, Current() is the other slot (what was written
+   one frame earlier) and the slot just written becomes "the other slot" *)
+Lemma diffs_step : forall (z : grid) (r : ring grid) X,
+    size r = 2 -> length (slots r) = 2%nat -> (cur r = 0 \/ cur r = 1) ->
+    size (move (put r X)) = 2 /\
+    length (slots (move (put r X))) = 2%nat /\
+    (cur (move (put r X)) = 0 \/ cur (move (put r X)) = 1) /\
+    current z (move (put r X)) = zth z (slots r) (1 - cur r) /\
+    zth z (slots (move (put r X))) (1 - cur (move (put r X))) = X.
+Proof.
+  intros z [sz cu fu ol sl] X Hs Hl Hc. cbn [size slots cur] in Hs, Hl, Hc. subst sz.
+  destruct sl as [|a [|b [|e sl]]]; cbn [length] in Hl; try discriminate Hl.
+  destruct Hc; subst cu; cbv; auto.
+Qed.
+
+(* flooredFrames.Oldest() right after the new frame was copied into Current() *)
+Lemma oldest_spec : forall c (r : ring frame) fs f,
+    1 <= d_gap c ->
+    RInv frame (blank_frame c) (d_gap c + 1) r (mkGhost fs (length fs)) ->
+    current (blank_frame c) r = f ->
+    f_pix (oldest_slot (blank_frame c) r) =
+    nth (length fs - Z.to_nat (d_gap c)) (map f_pix (fs ++ [f])) [].
+Proof.
+  intros c r fs f Hg HR Hc.
+  rewrite (RInv_oldest _ _ _ _ _ HR), Hc. unfold spec_oldest, spec_history.
+  cbn [committed since_mark]. rewrite hd_lastn. rewrite app_length. cbn [length].
+  replace (length fs + 1 - Nat.min (Z.to_nat (d_gap c + 1)) (S (length fs)))%nat
+    with (length fs - Z.to_nat (d_gap c))%nat by lia.
+  rewrite <- (map_nth f_pix). apply nth_indep.
+  rewrite map_length, app_length. cbn [length]. lia.
+Qed.
+
+(* coupling invariant between the detector state and the frames [fs] of the current epoch *)
+Record DInv (c : dcfg) (s : dstate) (fs : list frame) : Prop := mkDInv {
+  I_fl : RInv frame (blank_frame c) (d_gap c + 1) (s_floored s) (mkGhost fs (length fs));
+  I_aff : s_affected s = false;
+  I_th : s_thresh s = d_thresh0 c;
+  I_first : s_firstdiff s = false -> fs = [];
+  I_dsize : size (s_diffs s) = 2;
+  I_dlen : length (slots (s_diffs s)) = 2%nat;
+  I_dcur : cur (s_diffs s) = 0 \/ cur (s_diffs s) = 1;
+  I_dprev : fs <> [] ->
+            drel c (zth (zero_grid c) (slots (s_diffs s)) (1 - cur (s_diffs s)))
+                 (epoch_hot c (map f_pix fs))
+}.
+
+Lemma DInv_init : forall c, 1 <= d_gap c -> DInv c (dinit c) [].
+Proof.
+  intros c Hg. constructor; cbn [dinit s_floored s_diffs s_affected s_thresh s_firstdiff].
+  - apply (RInv_init frame (blank_frame c) (d_gap c + 1) (blank_frame c)). lia.
+  - reflexivity.
+  - reflexivity.
+  - reflexivity.
+  - reflexivity.
+  - reflexivity.
+  - left. reflexivity.
+  - intros H. exfalso. apply H. reflexivity.
+Qed.
+
+Lemma DInv_reset : forall c s fs, DInv c s fs -> DInv c (dreset s) [].
+Proof.
+  intros c s fs [Ifl Iaff Ith Ifirst Idsz Idlen Idcur Idprev].
+  constructor; cbn [dreset s_floored s_diffs s_affected s_thresh s_firstdiff].
+  - exact (RInv_step _ _ _ _ _ OReset Ifl).
+  - exact Iaff.
+  - exact Ith.
+  - reflexivity.
+  - exact Idsz.
+  - exact Idlen.
+  - left. reflexivity.
+  - intros H. exfalso. apply H. reflexivity.
+Qed.
+
+Lemma detect_step : forall c s fs f,
+    d_dynamic c = false -> 0 <= d_delta c -> 1 <= d_count c -> 1 <= d_gap c ->
+    affected_by_ffc f = false -> DInv c s fs ->
+    snd (detect c s f) = spec_verdict c (map f_pix fs ++ [f_pix f]) /\
+    DInv c (fst (detect c s f)) (fs ++ [f]).
+Proof.
+  intros c s fs f Hdyn Hdel Hcnt Hgap Hffc [Ifl Iaff Ith Ifirst Idsz Idlen Idcur Idprev].
+  rewrite (detect_nonffc c s f Hdyn Hffc Iaff). cbn [fst snd]. rewrite Ith.
+  pose proof (RInv_step _ _ _ _ _ (OPut f) Ifl) as H1. cbn [rstep gstep] in H1.
+  pose proof (RInv_put_current _ _ _ _ _ f Ifl) as Hc.
+  pose proof (RInv_step _ _ _ _ _ OMove H1) as H2.
+  cbn [rstep gstep committed since_mark] in H2. rewrite Hc in H2.
+  pose proof (oldest_spec c _ fs f Hgap H1 Hc) as Hcmp.
+  set (dg := diff_grid c (d_thresh0 c) (f_pix f)
+                       (f_pix (oldest_slot (blank_frame c) (put (s_floored s) f)))).
+  assert (Hdg : drel c dg (epoch_hot c (map f_pix fs ++ [f_pix f]))).
+  { unfold dg. rewrite epoch_hot_snoc, Hcmp, map_app, map_length. cbn [map]. apply diff_hot. }
+  destruct (diffs_step (zero_grid c) (s_diffs s) dg Idsz Idlen Idcur) as (Ds & Dl & Dc & Dcur & Dprev).
+  split.
+  - rewrite spec_verdict_snoc. destruct (s_firstdiff s) eqn:Hfd.
+    + unfold has_motion. f_equal. destruct (d_one c).
+      * apply icount_one. exact Hdg.
+      * rewrite Dcur. destruct fs as [|f0 fs'].
+        -- cbn [map app]. cbn [map app] in Hdg.
+           rewrite (icount_zero_l c dg _ _ Hdg (fun yx => epoch_hot_single_zero c (f_pix f) yx Hdel)).
+           symmetry. apply count_both_zero_l. intros yx Hin.
+           apply epoch_hot_single_zero; assumption.
+        -- apply icount_two; [exact Hdg|]. apply Idprev. discriminate.
+    + rewrite (Ifirst eq_refl). cbn [map app]. symmetry.
+      assert (Hz : forall H2, count_both c (epoch_hot c [f_pix f]) H2 = 0).
+      { intros H2'. apply count_both_zero_l. intros yx Hin.
+        apply epoch_hot_single_zero; assumption. }
+      rewrite !Hz. destruct (d_one c); apply Z.leb_gt; lia.
+  - constructor; cbn [s_floored s_diffs s_affected s_thresh s_firstdiff].
+    + rewrite app_length. cbn [length]. rewrite Nat.add_1_r. exact H2.
+    + reflexivity.
+    + reflexivity.
+    + intros H. discriminate H.
+    + exact Ds.
+    + exact Dl.
+    + exact Dc.
+    + intros _. fold dg. rewrite Dprev, map_app. exact Hdg.
+Qed.
+
+Lemma drun_spec : forall c evs s fs,
+    d_dynamic c = false -> 0 <= d_delta c -> 1 <= d_count c -> 1 <= d_gap c ->
+    ffc_free evs = true -> DInv c s fs ->
+    map fst (drun c s evs) = spec07_run c (map f_pix fs) evs.
+Proof.
+  intros c evs. induction evs as [|e t IH]; intros s fs Hdyn Hdel Hcnt Hgap Hff HI;
+    [reflexivity|].
+  unfold ffc_free in Hff. cbn [forallb] in Hff. apply andb_true_iff in Hff.
+  destruct Hff as [He Ht]. destruct e as [f|]; cbn [drun spec07_run].
+  - apply negb_true_iff in He.
+    destruct (detect_step c s fs f Hdyn Hdel Hcnt Hgap He HI) as [Hv HI'].
+    destruct (detect c s f) as [s' m]. cbn [fst snd] in Hv, HI'. cbn [map fst]. cbv zeta.
+    rewrite Hv. f_equal.
+    rewrite (IH s' (fs ++ [f]) Hdyn Hdel Hcnt Hgap Ht HI'). rewrite map_app. reflexivity.
+  - cbn [map fst]. f_equal.
+    apply (IH (dreset s) [] Hdyn Hdel Hcnt Hgap Ht (DInv_reset c s fs HI)).
+Qed.
+
+(* C07 for a non-negative DeltaThresh *)
+Theorem S07_holds_nonneg_delta : forall c evs,
+    d_dynamic c = false -> 0 <= d_delta c -> 1 <= d_count c -> 1 <= d_gap c ->
     ffc_free evs = true ->
     verdicts c evs = spec07_run c [] evs.
-Admitted.
+Proof.
+  intros c evs Hdyn Hdel Hcnt Hgap Hff. unfold verdicts.
+  apply (drun_spec c evs (dinit c) [] Hdyn Hdel Hcnt Hgap Hff (DInv_init c Hgap)).
+Qed.
+
+(* The statement of S07_holds below (no constraint on d_delta) is FALSE: with a negative
+   DeltaThresh every interior pixel of a frame compared with itself is "changed", so the
+   specification reports motion for the first frame of an epoch while the detector does not
+   (one-diff mode), and in two-diff mode the detector consults the stale diff frame left in
+   the other slot before a Reset. *)
+Theorem S07_statement_refuted :
+  ~ (forall c evs,
+        d_dynamic c = false -> 1 <= d_count c -> 1 <= d_gap c ->
+        ffc_free evs = true ->
+        verdicts c evs = spec07_run c [] evs).
+Proof.
+  intros H.
+  pose (c := mkD 3 3 0 1 true (-1) 1 false false 0 0 0 0).
+  pose (evs := [DFrame (mkF [[0;0;0];[0;0;0];[0;0;0]] 100000000000 0)]).
+  assert (E : verdicts c evs = spec07_run c [] evs).
+  { apply H; [reflexivity | cbn; lia | cbn; lia | reflexivity]. }
+  vm_compute in E. discriminate E.
+Qed.
+
+(* DeltaThresh is a uint16 in the Go configuration, hence the guard 0 <= d_delta c; without it
+   the statement is false (S07_statement_refuted above). *)
+Theorem S07_holds : forall c evs,
+    d_dynamic c = false -> 1 <= d_count c -> 1 <= d_gap c -> 0 <= d_delta c ->
+    ffc_free evs = true ->
+    verdicts c evs = spec07_run c [] evs.
+Proof. intros; apply S07_holds_nonneg_delta; assumption. Qed.
 
 (* the threshold never changes with a fixed threshold *)
 Theorem fixed_threshold_constant : forall c evs,
     d_dynamic c = false ->
     Forall (fun o => snd o = d_thresh0 c) (drun c (dinit c) evs).
-Admitted.
+Proof.
+  intros c evs Hd. exact (drun_thresh_fixed c evs (dinit c) Hd).
+Qed.
